@@ -179,6 +179,11 @@ func monC04(c *Case, tr *Trace) []Violation {
 		}
 		return vs
 	}
+	if ev.Kind == "expire_open" && tr.Labels["advance_skipped"] > 0 {
+		// virtual time could not be advanced to the opening context's deadline (a goroutine the schedule holds at a park point
+		// keeps a mutex others wait for): the tunnel did not expire, the harness ended it later - there is no cause to judge by
+		return vs
+	}
 	// --- Err() nil iff clean
 	target := ev.Target
 	for _, t := range tr.Tunnels {
@@ -189,6 +194,11 @@ func monC04(c *Case, tr *Trace) []Violation {
 			continue
 		}
 		if t.Idx != target && len(c.Cfg.Tunnels) > 1 {
+			continue
+		}
+		if ev.Kind == "expire_open" && tr.Labels["advance_skipped"] > 0 {
+			// virtual time could not be advanced to the opening context's deadline (a goroutine the schedule holds at a park point
+			// keeps a mutex others wait for): the tunnel did not expire, the harness ended it later - no cause to judge by
 			continue
 		}
 		if cleanCause(ev.Kind) {
